@@ -337,6 +337,8 @@ def esc(s):
 
 
 def parse_tool_set(text, fmt, ref):
+    if len(text) > 20000:
+        return "huge"
     if fmt == "hwloc":
         # what hwloc_bitmap_snprintf writes: [0xf...f,]0x%08x[,0x%08x]* ; parsed here so that the
         # reading of the tool's output does not depend on the library parser
@@ -661,6 +663,9 @@ def cross_largest(ctx, tool, ref, kind, arg, base):
             back = "rc=%d" % rc2
     ctx.bump("cross-largest")
     a, b = parse_tool_set(out0.strip(), "hwloc", ref), parse_tool_set(back.strip(), "hwloc", ref)
+    if a == "huge" or b == "huge":
+        ctx.bump("cross-skipped-huge-index")
+        return
     # cpusets beyond the topology (set arguments) cannot be covered by objects: compare inside the root
     if a is None or b is None or a != b:
         inroot = ref.ask("rootsets")
@@ -702,6 +707,9 @@ def cross_single(ctx, tool, ref, kind, arg, base):
         ctx.bump("cross-single-nonzero")
         return
     a, b = parse_tool_set(out0.strip(), "hwloc", ref), parse_tool_set(out1.strip(), "hwloc", ref)
+    if a == "huge" or b == "huge":
+        ctx.bump("cross-skipped-huge-index")
+        return
     ctx.bump("cross-single")
     ok = a is not None and b is not None and b.subset(a) and \
         ((a.is_empty() and b.is_empty()) or (b.weight() == 1 and b.first() == a.first()))
@@ -976,6 +984,7 @@ def check_distrib(ctx, kind, arg, tag, rng):
                 ctx.violation("crash:distrib:%s:%d" % (tag, n), "hwloc-distrib crashed", replay_text(kind, arg, "hwloc-distrib", args, err.decode(errors="replace")[-2000:]))
                 continue
             sets = [parse_tool_set(l, "hwloc", ref) for l in out.decode("latin-1").split("\n") if l != ""]
+            sets = [None if s == "huge" else s for s in sets]
             what = None
             if rc != 0:
                 what = "exit status %d" % rc
